@@ -6,10 +6,10 @@ set -u
 name="$1"; mdir="$2"; shift 2
 W=${VERIF_SCRATCH:-/tmp/mw}
 cd $W || exit 9
-git checkout -q -- . ; git clean -fdq; git checkout -q --detach $(git -C /repo rev-parse HEAD)
+git reset -q --hard; git clean -fdq; git checkout -q --detach $(git -C /repo rev-parse HEAD)
 rm -rf $W/_mut; cp -r "$mdir" $W/_mut
 ( cd $W/_mut && timeout 600 bash ./run.sh >/tmp/seed_demo_orig.log 2>&1 ); d0=$?
-git apply $W/_mut/patch.diff || { echo "PATCH DOES NOT APPLY"; exit 9; }
+git apply $W/_mut/patch.diff 2>/dev/null || { git apply --3way $W/_mut/patch.diff >/dev/null 2>&1 && git reset -q; } || { echo "PATCH DOES NOT APPLY"; exit 9; }
 make clean-tests test >/tmp/seed_test.log 2>&1; t=$?
 ( cd $W/_mut && timeout 600 bash ./run.sh >/tmp/seed_demo_mut.log 2>&1 ); d1=$?
 echo "demo on original: exit $d0 | pinned tests with change: exit $t | demo with change: exit $d1"
@@ -21,4 +21,4 @@ for id in "$@"; do
   res="$res $id:rc=$rc"
 done
 echo "RESULT $name demo_orig=$d0 tests=$t demo_mut=$d1 $res"
-git checkout -q -- . ; git clean -fdq; make clean-tests >/dev/null 2>&1
+git reset -q --hard; git clean -fdq; make clean-tests >/dev/null 2>&1
